@@ -19,8 +19,9 @@ for r in rows:
     out.append("| " + " | ".join(r) + " |")
 n = len(rows)
 c = sum(1 for r in rows if r[4] != "—")
+own = sum(1 for r in rows if (r[1] + " (") in r[4])
 out.append("")
-out.append(f"{c} of {n} confirmed seeded changes are caught by at least one quick-tier check.")
+out.append(f"{c} of {n} confirmed seeded changes are caught by at least one quick-tier check, {own} of {n} by the quick-tier check of the property they were aimed at.")
 table = "\n".join(out)
 p = os.path.join(HERE, "DESIGN.md")
 s = open(p).read()
